@@ -173,11 +173,11 @@ def build(repo):
     method('Controller.initialise_coordinate_directions', 'optexit', 'result', extra_tags=['C14'],
            extra_req=['parallel coordinate initialisation is rejected by solve (O8: expected dead):: not params("init.run_in_parallel")', FRESH],
            loops={'for:k#0': [grow(1)], 'for:k#2': [grow(0)], 'for:k#3': [grow(0)]},
-           dead=['return#3'])
+           dead_under=['init.run_in_parallel'])
     method('Controller.initialise_random_directions', 'optexit', 'result', extra_tags=['C14'],
            extra_req=[('batched (parallel) initialisation is outside the ledger contract (D6/D23):: not params("init.run_in_parallel")', 'C03', 'C04'), FRESH],
            loops={'for:ndirns#1': [grow(1)], 'for:ndirns#2': [grow(1)]},
-           dead=['return#1'])
+           dead_under=['init.run_in_parallel'])
     method('Controller.move_furthest_points', 'optexit', 'result', asserts={'before:Controller.geometry_step#1': [N2]})
     method('Controller.move_furthest_points_momentum', 'optexit', 'result', asserts={'before:Model.change_point#1': [N2]})
     method('Controller.soft_restart', 'optexit', 'result', params={'nruns_so_far': 'int', 'x_in_abs_coords_to_save': 'opt:val'},
